@@ -401,12 +401,17 @@ impl Allocator for Arena {
     // first try to deallocate the memory back to the main memory.
     let header = self.header();
     // if the offset + size is the current allocated size, then we can deallocate the memory back to the main memory.
-    if header
-      .allocated
-      .compare_exchange(offset + size, offset, Ordering::SeqCst, Ordering::Relaxed)
-      .is_ok()
-    {
-      return true;
+    match header.allocated.compare_exchange(
+      offset + size,
+      offset,
+      Ordering::SeqCst,
+      Ordering::Relaxed,
+    ) {
+      Ok(_) => return true,
+      // the range is not below the cursor: the ARENA was cleared or rewound after the range was handed out,
+      // there is nothing to give back.
+      Err(allocated) if offset + size > allocated => return false,
+      Err(_) => {}
     }
 
     match self.freelist {
